@@ -233,6 +233,7 @@ pub fn flag_of(req: &Value, k: &str) -> Result<SigHash, E> {
 fn sighash(req: &Value) -> R {
     let bytes = hx(req, "tx")?;
     let mut tx = Transaction::from_bytes(&bytes).map_err(|e| drv(format!("tx parse: {}", e)))?;
+    apply_ext(&mut tx, req)?;
     let flag = flag_of(req, "flag")?;
     let idx = un(req, "idx")? as usize;
     let script = Script::from_bytes(&hx(req, "script")?).map_err(|e| drv(format!("subscript parse: {}", e)))?;
@@ -256,6 +257,7 @@ pub fn mk_key(req: &Value, k: &str, ck: &str) -> Result<PrivateKey, E> {
 fn tx_sign(req: &Value) -> R {
     let bytes = hx(req, "tx")?;
     let mut tx = Transaction::from_bytes(&bytes).map_err(|e| drv(format!("tx parse: {}", e)))?;
+    apply_ext(&mut tx, req)?;
     let flag = flag_of(req, "flag")?;
     let idx = un(req, "idx")? as usize;
     let script = Script::from_bytes(&hx(req, "script")?).map_err(|e| drv(format!("subscript parse: {}", e)))?;
@@ -362,6 +364,8 @@ fn history(req: &Value) -> R {
         }
         let lb = live.to_bytes().map_err(lib)?;
         rec["bytes"] = h(&lb);
+        rec["id_now"] = json!(live.get_id_hex().map_err(lib)?);
+        rec["size_now"] = json!(live.get_size().map_err(lib)?);
         rec["slots"] = slots(&live);
         // behavioural probes after every step: the same sighash on a clone of the live object and on a fresh parse
         if !probes.is_empty() {
@@ -518,18 +522,36 @@ fn criteria(req: &Value) -> R {
     let mut tx = Transaction::from_bytes(&hx(req, "tx")?).map_err(|e| drv(format!("tx parse: {}", e)))?;
     apply_ext(&mut tx, req)?;
     let mut c = MatchCriteria::new();
-    if let Some(t) = st_opt(req, "tmpl") {
-        let tm = ScriptTemplate::from_asm_string(t).map_err(|e| drv(format!("template: {}", e)))?;
-        c.set_script_template(&tm);
-    }
-    if let Some(v) = un_opt(req, "exact") {
-        c.set_value(v);
-    }
-    if let Some(v) = un_opt(req, "min") {
-        c.set_min(v);
-    }
-    if let Some(v) = un_opt(req, "max") {
-        c.set_max(v);
+    // the setters are called in the requested order (in place, return values ignored)
+    let order: Vec<String> = match req.get("order").and_then(|x| x.as_array()) {
+        Some(a) => a.iter().filter_map(|x| x.as_str().map(|s| s.to_string())).collect(),
+        None => vec!["tmpl".into(), "exact".into(), "min".into(), "max".into()],
+    };
+    for what in &order {
+        match what.as_str() {
+            "tmpl" => {
+                if let Some(t) = st_opt(req, "tmpl") {
+                    let tm = ScriptTemplate::from_asm_string(t).map_err(|e| drv(format!("template: {}", e)))?;
+                    c.set_script_template(&tm);
+                }
+            }
+            "exact" => {
+                if let Some(v) = un_opt(req, "exact") {
+                    c.set_value(v);
+                }
+            }
+            "min" => {
+                if let Some(v) = un_opt(req, "min") {
+                    c.set_min(v);
+                }
+            }
+            "max" => {
+                if let Some(v) = un_opt(req, "max") {
+                    c.set_max(v);
+                }
+            }
+            o => return Err(drv(format!("criteria order item {}", o))),
+        }
     }
     Ok(json!({
         "outputs": sub0(|| tx.match_outputs(&c), |v| json!(v)),
